@@ -471,6 +471,10 @@ MODEL = True
 QUICK_SCALE = {"C01": "32", "C02": "32", "C04": "32", "C05": "100", "C06": "5", "C07": "24", "C08": "64", "C09": "64", "C10": "48", "C11": "20",
                "C12": "32", "C13": "64", "C14": "64", "C16": "12", "C18": "100", "C19": "64", "C20": "12"}
 
+# default --scale of the thorough tier where the base size was small next to the scaled quick tier
+# (measured: every thorough check stays under ~5 min on the 16 cores)
+THOROUGH_SCALE = {"C02": "3", "C04": "3", "C05": "4", "C08": "3", "C11": "4", "C17": "2", "C18": "4", "C19": "2"}
+
 SPECS = {
     "C01": {
         "legs": [leg_ambient_env],
